@@ -331,7 +331,11 @@ def run(ctx):
         ctx.copy_props("C06/C06_derive.v")
         extra = ["C06_derive.v"]
     r1 = ctx.coq(["Gen_Elems.v", "C06_lagrange.v"] + extra, timeout=600)
-    r2 = ctx.coq(["Gen_Hermite.v", "C06_hermite.v"], timeout=600)
+    hextra = []
+    if os.path.exists(os.path.join(common.COQ, "props", "C06", "C06_hermite_derive.v")):
+        ctx.copy_props("C06/C06_hermite_derive.v")
+        hextra = ["C06_hermite_derive.v"]
+    r2 = ctx.coq(["Gen_Hermite.v", "C06_hermite.v"] + hextra, timeout=600)
     ctx.sample({"theorem": "C06_partition_of_unity : forall e, In e all_elems -> forall l : list R, Rsum (map (Reval l) (eN e)) = 1",
                 "proof": "vm_compute of the regenerated tables through Qnorm_sound"})
     proof_ok = r1.ok and r2.ok
@@ -346,7 +350,7 @@ def run(ctx):
                           {"obligation": bad.failed_file, "log": bad.log[-3000:]}, found_input=False)
     correspondence(ctx, E, H)
     if ctx.tier == "thorough" and proof_ok:
-        ctx.coqchk(["C06_lagrange", "C06_hermite"] + [x[:-2] for x in extra])
+        ctx.coqchk(["C06_lagrange", "C06_hermite"] + [x[:-2] for x in extra + hextra])
     if ctx.tier == "thorough":
         # exhaustive python-side sweep as an independent cross-check of the Coq decision
         found = search_lagrange(E) + search_hermite(H)
